@@ -657,3 +657,48 @@ func init() {
 		},
 	})
 }
+
+func init() {
+	register(&Rule{
+		ID: "race.locks-released", Props: []string{"C15"}, Floor: 80,
+		Doc: "every Lock / RLock taken in a non-test function of the module is released on every path to the function's end: from the acquisition each path reaches the matching Unlock / RUnlock (or a `defer` of it) before a return; a path that leaves with the mutex held blocks every later Entry / rule load on it (functions that hand the lock to their caller are named exceptions)",
+		Run: func(c *Ctx) {
+			n := 0
+			for _, f := range c.P.ModuleFuncs() {
+				if isTestOrExample(f) || f.Blocks == nil {
+					continue
+				}
+				k := 0
+				for _, ci := range callsIn(f) {
+					if _, isDefer := ci.(*ssa.Defer); isDefer {
+						continue
+					}
+					key, op, ok := mutexOp(ci)
+					if !ok || (op != "Lock" && op != "RLock") {
+						continue
+					}
+					n++
+					k++
+					want := "Unlock"
+					if op == "RLock" {
+						want = "RUnlock"
+					}
+					okAll, off := allPathsHit(ci.(ssa.Instruction), func(x ssa.Instruction) bool {
+						c2, isCall := x.(ssa.CallInstruction)
+						if !isCall {
+							return false
+						}
+						k2, op2, ok2 := mutexOp(c2)
+						return ok2 && k2 == key && op2 == want
+					}, nil)
+					where := ""
+					if off != nil {
+						where = c.P.Pos(instrPos(off))
+					}
+					c.Check(okAll, fmt.Sprintf("%s / %s %s#%d", fnKey(f), op, key, k), ci.Pos(), "released on every path (a path reaches %s with the mutex still held)", where)
+				}
+			}
+			c.Stat("lock acquisitions", n)
+		},
+	})
+}
